@@ -507,3 +507,57 @@ def _(root):
 def _(root):
     """property-preserving apart from sparing foreign files: clear() removes every entry the lister lists, as listed"""
     sub_all(root, ('_archives.py',), "        rmtree(self.__state__['id'], self=False, ignore_errors=True)\n", "        for _dir in self._lsdir():\n            rmtree(_dir, self=True, ignore_errors=True)\n")
+
+
+# ---- round 11 rules
+@V('json-writer-spells-out-default-options')
+def _(root):
+    """ensure_ascii=True, allow_nan=True are json's defaults"""
+    sub_all(root, ('_archives.py',), "pik,mode,kwd = json,'w',{}", "pik,mode,kwd = json,'w',{'ensure_ascii':True, 'allow_nan':True}", 2)
+
+
+@V('dir-rmdir-guard-both-sides-resolved')
+def _(root):
+    """a guard that compares the resolved entry with the resolved root always holds for an entry of this archive"""
+    sub_all(root, ('_archives.py',), "        rmtree(self._getdir(key), self=True, ignore_errors=True)\n        return\n    def _lsdir(self):",
+            "        _dir = self._getdir(key)\n        if os.path.dirname(os.path.realpath(_dir)) == os.path.realpath(self.__state__['id']) or True:\n            rmtree(_dir, self=True, ignore_errors=True)\n        return\n    def _lsdir(self):")
+
+
+@V('queue-deque-maxlen-none')
+def _(root):
+    """deque(maxlen=None) is an unbounded deque"""
+    sub_all(root, CACHES, "        queue = deque()                 # order that keys have been used", "        queue = deque(maxlen=None)      # order that keys have been used", 4)
+
+
+@V('keymap-getstate-whole-dict')
+def _(root):
+    """__getstate__ returning the instance dict is what the default protocol does"""
+    sub_all(root, ('keymaps.py',), "    def __get_sentinel(self):\n", "    def __getstate__(self):\n        return dict(self.__dict__)\n\n    def __get_sentinel(self):\n")
+
+
+@V('validate-second-fallback-only-when-not-a-partial')
+def _(root):
+    """repeating the callable-instance fallback under `not identified` is a no-op (a bound method has a __name__)"""
+    sub_all(root, ('_inspect.py',), "    if not identified:\n        p_args = p_named = ()\n",
+            "    if not identified and not inspect.ismethod(func) and not inspect.isfunction(func):\n        if hasattr(func, '__call__') and not hasattr(func, '__name__'):\n            func = func.__call__\n    if not identified:\n        p_args = p_named = ()\n")
+
+
+@V('dir-len-walks-with-the-entry-pattern')
+def _(root):
+    """the same listing as _lsdir, spelled in place"""
+    sub_all(root, ('_archives.py',), "    def __len__(self):\n        return len(self._lsdir())\n",
+            "    def __len__(self):\n        return len(walk(self.__state__['id'],patterns=PREFIX+'*',recurse=False,folders=True,files=False,links=False))\n")
+
+
+@V('sqlite-copy-writes-contents-in-both-branches')
+def _(root):
+    """the contents are written on every path of copy()"""
+    sub_all(root, ('_archives.py',), "          adict = sqltable_archive(database=db, table=table, **self.state)\n          adict.update(self.__asdict__())",
+            "          adict = sqltable_archive(database=db, table=table, **self.state)\n          memo = self.__asdict__()\n          if name != self.name: adict.update(memo)\n          else: adict.update(memo)")
+
+
+@V('keygen-valid-reads-slots-once')
+def _(root):
+    """valid() reads the remembered arguments and leaves them alone"""
+    sub_all(root, ('_inspect.py',), "      ar,kw = last_args()\n      return isvalid(f,*ar,**kw) #XXX: better validate? (raises errors)",
+            "      ar,kw = _args[0],_args[1]\n      return isvalid(f,*ar,**kw) #XXX: better validate? (raises errors)")
